@@ -19,7 +19,10 @@ invalid cases    : bad name / bad module / different object under an existing fu
                    probe of the registry (old names, new names, the objects) is unchanged.
 interactive cases: re-registration is rejected outside, accepted inside an interactive block
                    (context manager left normally or by exception, or enter/exit calls) and
-                   rejected again after it.
+                   rejected again after it; the name is used through scoped access paths before
+                   the re-registration and must reach the new object, with the scoped binding,
+                   through every path (selector, scoped selector, object inside config_scope,
+                   reference, scoped reference) after it.
 """
 import contextlib
 import inspect
@@ -53,7 +56,10 @@ RULE = ('target cases: class shape or callable kind (29 kinds, generated as sour
         'an object -- or Gin\'s wrapper of it -- that is already registered under another name '
         'put under a full name held by a different object, unknown allow/deny names, both '
         'lists). interactive cases: exit in {normal, exception after / before the '
-        're-registration, explicit enter/exit}. Non-trivial (target) = (class shape other than '
+        're-registration, explicit enter/exit} x scope x which scoped access paths touch the name '
+        'before the re-registration (all five access paths are checked after it); rejected '
+        'registrations of classes with Gin-registered methods also probe the method\'s selectors '
+        'and function. Non-trivial (target) = (class shape other than '
         'plain __init__ or API other than configurable) with a binding present and a scope '
         'applied; (invalid/interactive) = same shape/API condition and at least one other '
         'registration present. Distinct = distinct case JSON.')
@@ -699,7 +705,7 @@ def check_target(case):
 
 # ----------------------------------------------------------------------------- registry probe
 INVALID_TARGETS = ['fn', 'init', 'new', 'meta', 'namedtuple', 'slots', 'callobj', 'lambda',
-                   'dataclass', 'reg_method', 'wrapped_fn']
+                   'dataclass', 'reg_method', 'cfg_method', 'wrapped_fn']
 BAD_NAMES = ['', '1abc', 'a-b', 'a..b', '.a', 'a.', 'a b', 's/a']
 FAULTS = ['bad_name', 'bad_module', 'duplicate', 'duplicate_registered', 'unknown_allow',
           'unknown_deny', 'both_lists']
@@ -845,12 +851,21 @@ def check_invalid(case):
   names = {s for full, _, _ in priors for s in suffixes(full)}
   for full in ('pk.mod.' + NM, MOD_A + '.K', MOD_A + '.' + NM, OTHER_FULL, intended):
     names.update(suffixes(full))
+  if KINDS[kind][3]:
+    # the class carries a Gin-registered method: its selector before (module.meth) and the one a
+    # successful class registration would give it (<class full name>.meth) are probed too
+    for full in (MOD_A + '.meth', MOD_A + '.K.meth', intended + '.meth', 'pk.mod.' + NM + '.meth',
+                 MOD_T + '.meth', OTHER_FULL + '.meth'):
+      names.update(suffixes(full))
+    labels.add('invalid:class-with-registered-method')
   names = sorted(n for n in names if re.fullmatch(r'[A-Za-z_]\w*(\.[A-Za-z_]\w*)*', n))
   objects = [(tag, f) for _, f, tag in priors] + [('new', obj)]
   if existing is not None:
     objects.append(('existing', existing.K))
   if first_holder is not None:
     objects.append(('first-holder', first_holder))
+  if KINDS[kind][3]:
+    objects.append(('method', new.K.__dict__['meth']))
   before_vars = snap(obj)
   before = probe(names, objects)
   if priors or existing is not None:
@@ -929,7 +944,7 @@ def check_interactive(case):
   if kind not in INVALID_TARGETS or api1 not in APIS or api2 not in APIS or exit_kind not in EXITS:
     raise OutOfDomain('cell not in domain')
   labels = {'kind:interactive', 'exit:' + exit_kind, 'api:' + api2, 'shape:' + kind,
-            'target:class' if KINDS[kind][0] else 'target:callable'}
+            'target:class' if KINDS[kind][0] else 'target:callable', 'scoped'}
   priors = make_prior(int(case.get('prior', 0)) % 4)
   is_class = KINDS[kind][0]
   first, second, third = (build_tagged(kind, m) for m in (MOD_T, MOD_A, 'c13mod_c'))
@@ -950,13 +965,66 @@ def check_interactive(case):
     raise Violation('re-registration-outside-interactive-mode',
                     f'{when}: {api2} of a different {kind} under {full!r} was accepted')
 
-  def resolves_to(mod, when):
-    who = made_by(gin.get_configurable(full))
+  scope = case.get('scope') or 's'
+  if scope not in SCOPES[1:]:
+    raise OutOfDomain('scope')
+  touch = int(case.get('touch', 0)) % 8
+  inj = f'{SENTINEL}:d0:scoped'
+  gin.bind_parameter(f'{scope}/{full}.d0', inj)     # every tagged kind has a parameter d0
+
+  def ref(scoped_sel):
+    gin.parse_config(f'c13probe.c13consumer.x = @{scoped_sel}')   # parsed afresh on every use
+    return _consumer()
+
+  def paths(mod):
+    """(how, getter of the version, scope to call it in, scoped binding applies)."""
+    return [('selector', lambda: gin.get_configurable(full), '', False),
+            ('scoped selector', lambda: gin.get_configurable(f'{scope}/{full}'), '', True),
+            ('object inside config_scope', lambda: gin.get_configurable(mod.K), scope, True),
+            ('reference', lambda: ref(full), '', False),
+            ('scoped reference', lambda: ref(f'{scope}/{full}'), '', True)]
+
+  def reach(path, mod, when):
+    how, getter, call_scope, scoped = path
+    try:
+      with in_scope(call_scope):
+        ver = getter()
+    except Exception as e:  # pylint: disable=broad-except
+      raise Violation('registry-version-unreachable',
+                      f'{when}: {how} of {full}: {type(e).__name__}: {e}')
+    out = call(ver, [], {}, call_scope)
+    require(out[0] == 'ok', 'registry-call-raised', lambda: f'{when}: {how}: {out[1]!r}')
+    res = out[1]
+    if is_class:
+      who = next((n for n in (MOD_A, MOD_T, 'c13mod_c')
+                  if n in sys.modules and isinstance(res, sys.modules[n].K)), None)
+      d0 = mod._rec(res).get('d0') if who == mod.__name__ else None   # pylint: disable=protected-access
+    else:
+      who, d0 = res.get('@'), res.get('d0')
     require(who == mod.__name__, 'name-reaches-wrong-object',
-            lambda: f'{when}: {full} reaches the object of {who}, expected {mod.__name__}')
+            lambda: f'{when}: {full} through the {how} reaches the object of {who}, expected '
+                    f'{mod.__name__}')
+    if is_class:
+      require(issubclass(ver, mod.K), 'class-version-not-subclass', lambda: f'{when}: {how}')
+      if not KINDS[kind][3]:
+        require(type(res) is mod.K, 'instance-not-exactly-original-class',
+                lambda: f'{when}: {how}: {type(res)!r}')
+    require(d0 == (inj if scoped else 'dflt:d0'), 'registry-version-not-injected',
+            lambda: f'{when}: {how}: d0 = {d0!r}')
+
+  def resolves_to(mod, when, only=None):
+    for i, path in enumerate(paths(mod)):
+      if only is None or i in only:
+        reach(path, mod, when)
 
   rejected(second, 'before the block')
-  resolves_to(first, 'before the block')
+  # before the re-registration the name is used through the unscoped selector and through the
+  # scoped access paths picked by `touch` (a scoped version built now must not outlive the
+  # re-registration)
+  touched = [0] + [i for bit, i in ((1, 1), (2, 4), (4, 2)) if touch & bit]
+  resolves_to(first, 'before the block', only=touched)
+  if len(touched) > 1:
+    labels.add('scoped-access-before-re-registration')
   registered_inside = exit_kind in ('normal', 'exception_after', 'explicit')
   if exit_kind in ('normal', 'exception_after', 'exception_before'):
     try:
@@ -985,6 +1053,8 @@ def check_interactive(case):
       require(ret is second.K, 'register-returned-other-object', 'inside interactive mode')
     resolves_to(second, 'after re-registration')
     labels.add('re-registered')
+    if len(touched) > 1:
+      labels.add('scoped-access-before-and-after-re-registration')
   else:
     resolves_to(first, 'after an interactive block without registration')
   # the mode has ended: a third object under the same name is rejected again
@@ -1057,7 +1127,8 @@ def _invalid_case(draw):
 def _interactive_case(draw):
   return {'kind': 'interactive', 'target': draw(st.sampled_from(INVALID_TARGETS)),
           'api': draw(st.sampled_from(APIS)), 'api2': draw(st.sampled_from(APIS)),
-          'exit': draw(st.sampled_from(EXITS)), 'prior': draw(st.integers(0, 3))}
+          'exit': draw(st.sampled_from(EXITS)), 'prior': draw(st.integers(0, 3)),
+          'scope': draw(st.sampled_from(SCOPES[1:])), 'touch': draw(st.integers(0, 7))}
 
 
 def strategy():
@@ -1099,7 +1170,8 @@ def sweep_forms(tier):
 def sweep_invalid(tier):
   cases = []
   for target, api, fault in itertools.product(['fn', 'init', 'meta', 'namedtuple', 'callobj',
-                                               'wrapped_fn'], APIS, FAULTS):
+                                               'wrapped_fn', 'reg_method', 'cfg_method'], APIS,
+                                              FAULTS):
     # every variant of every fault for plain functions (all APIs) and for the metaclass shape
     # through external_configurable; three variants per fault for the rest
     full = target == 'fn' or (target == 'meta' and api == 'external') or tier == 'thorough'
@@ -1115,8 +1187,10 @@ def sweep_invalid(tier):
 
 def sweep_interactive(tier):
   del tier
-  cases = [{'kind': 'interactive', 'target': t, 'api': a1, 'api2': a2, 'exit': e, 'prior': 1}
-           for t, a1, a2, e in itertools.product(['fn', 'init', 'meta', 'callobj', 'wrapped_fn'],
+  cases = [{'kind': 'interactive', 'target': t, 'api': a1, 'api2': a2, 'exit': e, 'prior': 1,
+            'scope': 's/t' if t == 'meta' else 's', 'touch': 7 if e != 'explicit' else 1}
+           for t, a1, a2, e in itertools.product(['fn', 'init', 'meta', 'callobj', 'wrapped_fn',
+                                                  'reg_method'],
                                                  APIS, APIS,
                                                  EXITS)]
   return cases, True
